@@ -227,6 +227,129 @@ pub trait Section: Send + Sync {
 
 pub type CheckFn<I> = fn(&I, &mut Case) -> Result<(), Fail>;
 
+// ---------------------------------------------------------------------------------------------
+// stall watchdog: every case announces itself; a supervisor thread watches the workers' CPU clocks
+
+pub trait Erased: Send {
+    fn to_json(&self) -> Value;
+    /// re-run the case in a fresh thread; true if it finishes within `limit_s` CPU-seconds
+    fn finishes_within(&self, limit_s: f64) -> bool;
+}
+
+struct Current<I: 'static> {
+    input: I,
+    check: CheckFn<I>,
+}
+
+impl<I: Serialize + Clone + Send + 'static> Erased for Current<I> {
+    fn to_json(&self) -> Value {
+        serde_json::to_value(&self.input).unwrap_or(Value::Null)
+    }
+    fn finishes_within(&self, limit_s: f64) -> bool {
+        let input = self.input.clone();
+        let check = self.check;
+        meter::finishes_within(limit_s, move || {
+            let mut case = Case::default();
+            let _ = check(&input, &mut case);
+        })
+    }
+}
+
+pub struct Slot {
+    pub clock: libc::clockid_t,
+    pub counter: AtomicU64,
+    pub current: Mutex<Option<(String, Box<dyn Erased>)>>,
+}
+
+pub static SLOTS: Mutex<Vec<std::sync::Arc<Slot>>> = Mutex::new(Vec::new());
+
+thread_local! {
+    static MY_SLOT: std::cell::RefCell<Option<std::sync::Arc<Slot>>> = const { std::cell::RefCell::new(None) };
+    static SECTION: std::cell::RefCell<String> = const { std::cell::RefCell::new(String::new()) };
+}
+
+pub fn set_section(name: &str) {
+    SECTION.with(|s| *s.borrow_mut() = name.to_string());
+}
+
+fn announce<I: Serialize + Clone + Send + 'static>(input: &I, check: CheckFn<I>) {
+    MY_SLOT.with(|s| {
+        let mut s = s.borrow_mut();
+        if s.is_none() {
+            let slot = std::sync::Arc::new(Slot { clock: meter::my_cpu_clock(), counter: AtomicU64::new(0), current: Mutex::new(None) });
+            SLOTS.lock().unwrap().push(slot.clone());
+            *s = Some(slot);
+        }
+        let slot = s.as_ref().unwrap();
+        let section = SECTION.with(|x| x.borrow().clone());
+        *slot.current.lock().unwrap() = Some((section, Box::new(Current { input: input.clone(), check })));
+        slot.counter.fetch_add(1, Ordering::SeqCst);
+    });
+}
+
+fn retire() {
+    MY_SLOT.with(|s| {
+        if let Some(slot) = s.borrow().as_ref() {
+            slot.counter.fetch_add(1, Ordering::SeqCst);
+        }
+    });
+}
+
+pub const STALL_LIMIT_S: f64 = 5.0;
+pub const STALL_CONFIRM_S: f64 = 20.0;
+
+/// Supervisor: a case that burns more than STALL_LIMIT_S CPU-seconds is re-run alone with a
+/// STALL_CONFIRM_S limit; if it still does not finish, the input is saved and the run ends.
+/// `hang_is_violation`: the property's statement implies termination (C01, C06, C14).
+pub fn start_stall_watchdog(property: String, replay_dir: PathBuf, hang_is_violation: bool) {
+    std::thread::Builder::new()
+        .name("stall-watchdog".into())
+        .spawn(move || {
+            let mut seen: Vec<(u64, u64, bool)> = Vec::new();
+            loop {
+                std::thread::sleep(std::time::Duration::from_millis(250));
+                let slots: Vec<std::sync::Arc<Slot>> = SLOTS.lock().unwrap().clone();
+                while seen.len() < slots.len() {
+                    seen.push((u64::MAX, 0, false));
+                }
+                for (i, s) in slots.iter().enumerate() {
+                    let Some(cpu) = meter::read_clock_ns(s.clock) else { continue };
+                    let c = s.counter.load(Ordering::SeqCst);
+                    if c != seen[i].0 {
+                        seen[i] = (c, cpu, false);
+                        continue;
+                    }
+                    if c % 2 == 1 && !seen[i].2 && (cpu.saturating_sub(seen[i].1)) as f64 / 1e9 > STALL_LIMIT_S {
+                        seen[i].2 = true;
+                        let guard = s.current.lock().unwrap();
+                        let Some((section, cur)) = guard.as_ref() else { continue };
+                        if cur.finishes_within(STALL_CONFIRM_S) {
+                            eprintln!("stall-watchdog: a case of section {} exceeded {} CPU-s but finished on an isolated re-run; not reported", section, STALL_LIMIT_S);
+                            continue;
+                        }
+                        let _ = std::fs::create_dir_all(&replay_dir);
+                        let path = replay_dir.join(format!("{}-{}-hang.json", property, section));
+                        let v = json!({
+                            "property": property, "section": section, "signature": "hang:cpu",
+                            "message": format!("a single case burnt more than {} CPU-seconds, and again more than {} CPU-seconds when re-run alone: a library call does not terminate", STALL_LIMIT_S, STALL_CONFIRM_S),
+                            "input": cur.to_json(),
+                        });
+                        let _ = std::fs::write(&path, serde_json::to_string_pretty(&v).unwrap() + "\n");
+                        if hang_is_violation {
+                            println!("FAIL section={} sig=hang:cpu :: a library call does not terminate on this input", section);
+                            println!("VIOLATION property={} replay={}", property, path.display());
+                            std::process::exit(1);
+                        } else {
+                            println!("INCONCLUSIVE property={} a case of section {} does not terminate (input saved at {}); termination is not part of this property's statement", property, section, path.display());
+                            std::process::exit(2);
+                        }
+                    }
+                }
+            }
+        })
+        .unwrap();
+}
+
 fn mix(mut h: u64, s: &str) -> u64 {
     for b in s.bytes() {
         h ^= b as u64;
@@ -270,8 +393,11 @@ fn write_replay<I: Serialize>(ctx: &Ctx, section: &str, input: &I, f: &Fail) -> 
 
 /// Evaluate one case under panic capture. A panic that escapes the check function from harness
 /// code is a harness error; one located in the library is a failure of the property.
-fn eval<I>(check: CheckFn<I>, input: &I, case: &mut Case) -> Result<Result<(), Fail>, String> {
-    match meter::catch(|| check(input, case)) {
+fn eval<I: Serialize + Clone + Send + 'static>(check: CheckFn<I>, input: &I, case: &mut Case) -> Result<Result<(), Fail>, String> {
+    announce(input, check);
+    let r = meter::catch(|| check(input, case));
+    retire();
+    match r {
         Ok(Err(f)) if f.sig.starts_with("harness:") => Err(format!("{}: {}", f.sig, f.msg)),
         Ok(r) => Ok(r),
         Err(p) => {
@@ -325,6 +451,7 @@ where
                     .name(format!("shard{}", shard))
                     .stack_size(64 << 20)
                     .spawn_scoped(scope, move || {
+                        set_section(self.name);
                         let mut stats = Stats::default();
                         let frozen = std::cell::Cell::new(false);
                         let stats_cell = std::cell::RefCell::new(&mut stats);
@@ -473,6 +600,7 @@ where
                     .name(format!("enum{}", shard))
                     .stack_size(64 << 20)
                     .spawn_scoped(scope, move || {
+                        set_section(self.name);
                         let mut stats = Stats::default();
                         let mut seen_sigs: HashSet<String> = HashSet::new();
                         let walked = meter::catch(|| (self.enumerate)(ctx.tier, shard, shards, &mut |input: I| {
